@@ -113,6 +113,10 @@ func run(r *mon.Run) {
 			if g.Chance(1, 3) {
 				h[name] = append(h[name], "second", "")
 			}
+			if g.Chance(1, 12) {
+				// values whose (joined) length sits on a CBOR head-size boundary
+				h[name] = []string{strings.Repeat("L", mon.Pick(g, []int{23, 24, 255, 256, 65535, 65536, 65537}))}
+			}
 		}
 		shape := "plain"
 		switch g.Intn(8) {
